@@ -1,11 +1,7 @@
 /* C16: tree builder (tree_builder.c).  Real file included unmodified; hash objects, hasher and
  * meta-data objects are the assumed environment of env/tree_env.h. */
 #include "env/common.h"
-#ifdef USE_LIVE
-#include "env/c19_alloc_env.h"      /* funnels with live-block accounting (C19 jobs) */
-#else
-#include "env/stubs_base.h"
-#endif
+#include "env/c19_alloc_env.h"      /* allocation funnels with live-block accounting (instead of env/stubs_base.h) */
 #include "tree_builder.h"
 #include "hashchain.h"
 #include "env/tree_env.h"
@@ -16,11 +12,9 @@
 #include "contracts/tree_builder_join.h"
 #include "contracts/tree_builder_insert.h"
 #include "tree_builder.c"
-#ifdef USE_LIVE
 /* struct KSI_TreeLeafHandle_st is private to tree_builder.c: these contracts (re-declarations) come after the file */
 #include "contracts/tree_builder_addleaf.h"
 #include "contracts/tree_builder_close.h"
-#endif
 
 struct KSI_CTX_st { int dummy; };
 static struct KSI_CTX_st g_ctx_obj;
@@ -300,5 +294,52 @@ void harness(void) {
 		__CPROVER_assert(g_obj_live == live0, "chain ok: freeing the chain releases everything it created");
 		__CPROVER_assert(leaf->hash == NULL || leaf->hash->ref == ref0, "chain ok: freeing the chain drops its reference to the leaf hash");
 	}
+}
+#endif
+
+#ifdef H_pin
+/* processAndInsertNode with a model processor list of 0..2 leaf processors.  A processor (call-back supplied by
+ * the owner of the builder, cf. blocksigner.c) either fails, adds nothing, or makes a new node with the real
+ * KSI_TreeNode_new (the way maskingProcessor / metaDataProcessor do). */
+static KSI_TreeBuilderLeafProcessor g_cb[2];
+static size_t g_cbl_len;
+static KSI_LIST(KSI_TreeBuilderLeafProcessor) g_cbl;
+static int proc_stub(KSI_TreeNode *in, void *c, KSI_TreeNode **out) {
+	KSI_TreeNode *t = NULL; int res;
+	g_cbl_calls++;
+	if (in == NULL || out == NULL) return KSI_INVALID_ARGUMENT;
+	if (nondet_bool()) return KSI_INVALID_STATE;
+	if (nondet_bool()) { *out = NULL; return KSI_OK; }
+	res = KSI_TreeNode_new(&g_ctx_obj, &g_proc_hash, NULL, (int)in->level, &t);
+	if (res != KSI_OK) return res;
+	*out = t;
+	return KSI_OK;
+}
+static size_t cbl_stub_length(KSI_LIST(KSI_TreeBuilderLeafProcessor) *l) { return g_cbl_len; }
+static int cbl_stub_elementAt(KSI_LIST(KSI_TreeBuilderLeafProcessor) *l, size_t pos, KSI_TreeBuilderLeafProcessor **o) {
+	if (pos >= g_cbl_len) return KSI_BUFFER_OVERFLOW;
+	*o = &g_cb[pos];
+	return KSI_OK;
+}
+void harness(void) {
+	KSI_TreeNode *node = mk_node();
+	int res;
+	if (node == NULL) return;
+	mk_builder();
+	g_proc_hash.ref = 1000; g_proc_hash.ctx = NULL;
+	g_cb[0].fn = proc_stub; g_cb[0].c = NULL; g_cb[0].levelOverhead = 1;
+	g_cb[1].fn = proc_stub; g_cb[1].c = NULL; g_cb[1].levelOverhead = 1;
+	g_cbl_len = nondet_size();
+	if (g_cbl_len > 2) return;
+	memset(&g_cbl, 0, sizeof(g_cbl));
+	g_cbl.length = cbl_stub_length; g_cbl.elementAt = cbl_stub_elementAt;
+	g_tb.cbList = &g_cbl;
+	g_live = 9; g_alloc_failed = 0; g_cbl_calls = 0;
+	tr_init();
+	res = processAndInsertNode(&g_tb, node);
+	REACH("processAndInsertNode returns");
+	if (res == KSI_OK && g_cbl_len == 2 && g_live == 9 + 4) REACH("inserted under two processor nodes");
+	if (res == KSI_OK && g_cbl_len == 0) REACH("inserted without processors");
+	if (res != KSI_OK && g_cbl_calls == 2) REACH("failed after the first processor's node was joined");
 }
 #endif
